@@ -1,5 +1,7 @@
 """Feeding exact spacetimes to the real aurel code and the convergence rule
 (DESIGN 3.1 input forms, 3.4 comparison rules)."""
+import os
+
 import numpy as np
 
 import aurel
@@ -226,14 +228,61 @@ def natural_scale(ex, trim=0):
                  + 1e-30)
 
 
+def _marginal(o):
+    """A convergence failure worth a second look on a finer pair: the error
+    is within 1000 floors of the round-off floor, or it does converge at
+    a third of the required order or better. A wrong formula in an O(1)
+    quantity has neither (q ~ 0, error many orders above the floor) and is
+    reported at once."""
+    try:
+        if o.get("floor") and o["e2"] <= 1e3 * o["floor"]:
+            return True
+        need = o.get("need")
+        q = o.get("q")
+        return q is not None and np.isfinite(q) and q >= (
+            need / 3.0 if need else 0.5)
+    except Exception:  # noqa: BLE001
+        return False
+
+
+class _Slots:
+    """At most two refined-pair evaluations at a time over all worker
+    processes (each holds several rank-4 fields on an 8x larger grid)."""
+
+    def __enter__(self):
+        import fcntl
+        import tempfile
+        base = os.environ.get("VERIF_SCRATCH") or tempfile.gettempdir()
+        self.fh = None
+        paths = [os.path.join(base, f"aurelverif-refine-{os.getuid()}-{k}"
+                              ".lock") for k in range(2)]
+        for pth in paths:
+            fh = open(pth, "w")
+            try:
+                fcntl.flock(fh, fcntl.LOCK_EX | fcntl.LOCK_NB)
+                self.fh = fh
+                return self
+            except OSError:
+                fh.close()
+        self.fh = open(paths[os.getpid() % 2], "w")
+        fcntl.flock(self.fh, fcntl.LOCK_EX)
+        return self
+
+    def __exit__(self, *a):
+        import fcntl
+        fcntl.flock(self.fh, fcntl.LOCK_UN)
+        self.fh.close()
+
+
 def asymptotic(test, max_points=70 ** 3):
-    """Convergence is an asymptotic statement. A convergence-rule failure
-    (its observation carries the observed order 'q') on the level pair (0, 1)
-    is re-examined on the pair (1, 2); it is reported only if the same
-    sub-result fails there too. Failures of any other kind are reported
-    directly. A change that makes a result wrong (non-convergent) fails on
-    every pair, so nothing real is lost; an under-resolved coarse grid
-    (pre-asymptotic observed order) is not reported."""
+    """Convergence is an asymptotic statement. A marginal convergence-rule
+    failure (see _marginal; its observation carries the observed order 'q')
+    on the level pair (0, 1) is re-examined on the pair (1, 2); it is
+    reported only if the same sub-result fails there too. Failures of any
+    other kind, and gross convergence failures, are reported directly. A
+    change that makes a result wrong (non-convergent) fails on every pair,
+    so nothing real is lost; an under-resolved coarse grid (pre-asymptotic
+    observed order) is not reported."""
     from .common import Note
 
     def wrapped(case, note):
@@ -246,12 +295,14 @@ def asymptotic(test, max_points=70 ** 3):
         other = [(d, o) for d, o in n1.pending
                  if not (isinstance(o, dict) and "q" in o)]
         keep = conv
-        if conv and not case.get("level_shift"):
+        if conv and not case.get("level_shift") and \
+                all(_marginal(o) for _, o in conv):
             su = Setup(dict(case, level_shift=1))
             N, _, _ = su.grid(1)
             if N[0] * N[1] * N[2] <= max_points:
                 n2 = Note()
-                test(dict(case, level_shift=1), n2)
+                with _Slots():
+                    test(dict(case, level_shift=1), n2)
                 again = {d for d, _ in n2.pending}
                 keep = [(d, dict(o, refined=dict(
                     [x for x in n2.pending if x[0] == d][0][1] or {})))
